@@ -1,2 +1,1006 @@
-(* Proofs for C13. *)
-From WI Require Import Lib.Base Lib.Info Model.Der.
+(* Proofs for C13 (Model/Der.v). *)
+From Coq Require Import ZifyN ZifyNat ZifyBool.
+From WI Require Import Lib.Base Lib.Info Lib.Time gen.Asn1Names Model.Der.
+Open Scope N_scope.
+Local Ltac Zify.zify_post_hook ::= Z.div_mod_to_equations.
+
+(* ------------------------------------------------------------------ *)
+(* base-128 integers                                                   *)
+(* ------------------------------------------------------------------ *)
+Local Ltac fin := first [reflexivity | f_equal; first [reflexivity | f_equal; first [reflexivity | lia]]].
+Lemma b128_cont : forall f first acc x r,
+  x < 128 -> (first = true -> x <> 0) ->
+  b128 (S f) first acc ((128 + x) :: r) = b128 f false (acc * 128 + x) r.
+Proof.
+  intros f first acc x r Hx Hf. cbn [b128].
+  replace (first && (128 + x =? 128)) with false.
+  2:{ destruct first; cbn [andb]; [|reflexivity]. symmetry. apply N.eqb_neq. specialize (Hf eq_refl). lia. }
+  replace ((128 + x) mod 128) with x by lia.
+  replace (128 + x <? 128) with false by (symmetry; apply N.ltb_ge; lia).
+  reflexivity.
+Qed.
+
+Lemma b128_last : forall f first acc x r,
+  x < 128 -> acc * 128 + x <= 2147483647 ->
+  b128 (S f) first acc (x :: r) = Ok (acc * 128 + x, r).
+Proof.
+  intros f first acc x r Hx Hb. cbn [b128].
+  replace (first && (x =? 128)) with false.
+  2:{ destruct first; cbn [andb]; [|reflexivity]. symmetry. apply N.eqb_neq. lia. }
+  replace (x mod 128) with x by lia.
+  replace (x <? 128) with true by (symmetry; apply N.ltb_lt; lia).
+  replace (2147483647 <? acc * 128 + x) with false by (symmetry; apply N.ltb_ge; lia).
+  reflexivity.
+Qed.
+
+Lemma parse_base128_enc : forall t r, t < 2147483648 -> parse_base128 (enc_b128 t ++ r) = Ok (t, r).
+Proof.
+  intros t r Ht. unfold parse_base128, enc_b128.
+  destruct (N.ltb_spec t 128).
+  { cbn [app]. rewrite b128_last by lia. fin. }
+  destruct (N.ltb_spec t 16384).
+  { cbn [app]. rewrite b128_cont by lia. rewrite b128_last by lia. fin. }
+  destruct (N.ltb_spec t 2097152).
+  { cbn [app]. rewrite b128_cont by lia. rewrite b128_cont by (try lia; discriminate).
+    rewrite b128_last by lia. fin. }
+  destruct (N.ltb_spec t 268435456).
+  { cbn [app]. rewrite b128_cont by lia. rewrite b128_cont by (try lia; discriminate).
+    rewrite b128_cont by (try lia; discriminate).
+    rewrite b128_last by lia. fin. }
+  cbn [app]. rewrite b128_cont by lia. rewrite b128_cont by (try lia; discriminate).
+  rewrite b128_cont by (try lia; discriminate). rewrite b128_cont by (try lia; discriminate).
+  rewrite b128_last by lia. fin.
+Qed.
+
+Lemma bytes_ok_cons : forall b l, bytes_ok (b :: l) = true -> b < 256 /\ bytes_ok l = true.
+Proof.
+  intros b l H. unfold bytes_ok in *. cbn [forallb] in H. apply andb_true_iff in H as [H1 H2].
+  split; [|exact H2]. unfold byte_ok in H1. apply N.ltb_lt in H1. exact H1.
+Qed.
+
+Lemma bytes_ok_app : forall a b, bytes_ok (a ++ b) = true <-> bytes_ok a = true /\ bytes_ok b = true.
+Proof. intros. unfold bytes_ok. rewrite forallb_app. apply andb_true_iff. Qed.
+
+Lemma b128_inv : forall f first acc b r' t r,
+  b128 (S f) first acc (b :: r') = Ok (t, r) -> b < 256 ->
+  (b < 128 /\ t = acc * 128 + b /\ r = r' /\ t <= 2147483647) \/
+  (128 <= b /\ (first = true -> b <> 128) /\ b128 f false (acc * 128 + (b - 128)) r' = Ok (t, r)).
+Proof.
+  intros f first acc b r' t r H Hb. cbn [b128] in H.
+  destruct (first && (b =? 128)) eqn:E1; [discriminate|].
+  destruct (N.ltb_spec b 128) as [L|L].
+  - left. replace (b mod 128) with b in H by lia.
+    destruct (N.ltb_spec 2147483647 (acc * 128 + b)); [discriminate|].
+    inversion H; subst. repeat split; lia.
+  - right. replace (b mod 128) with (b - 128) in H by lia.
+    repeat split; [exact L| |exact H].
+    intros ->. cbn [andb] in E1. apply N.eqb_neq in E1. exact E1.
+Qed.
+
+Lemma b128_fuel0 : forall first acc l t r, b128 0 first acc l = Ok (t, r) -> False.
+Proof. intros first acc l t r H. destruct l; discriminate H. Qed.
+
+Local Ltac b128_step H Hok :=
+  match type of H with
+  | b128 _ _ _ ?l = Ok _ =>
+      let b := fresh "b" in let l' := fresh "l" in let Hb := fresh "Hb" in
+      destruct l as [|b l']; [discriminate H|];
+      apply bytes_ok_cons in Hok as [Hb Hok];
+      apply b128_inv in H; [|exact Hb];
+      destruct H as [(?&?&?&?)|(?&?&H)]
+  end.
+
+Lemma parse_base128_inv : forall l t r,
+  parse_base128 l = Ok (t, r) -> bytes_ok l = true ->
+  l = enc_b128 t ++ r /\ t < 2147483648.
+Proof.
+  intros l t r H Hok. unfold parse_base128 in H.
+  b128_step H Hok.
+  { subst. split; [|lia]. unfold enc_b128. replace (0 * 128 + b <? 128) with true by (symmetry; apply N.ltb_lt; lia).
+    cbn [app]; repeat (f_equal; try lia). }
+  b128_step H Hok.
+  { subst. split; [|lia]. unfold enc_b128.
+    assert (b <> 128) by auto.
+    replace (_ <? 128) with false by (symmetry; apply N.ltb_ge; lia).
+    replace (_ <? 16384) with true by (symmetry; apply N.ltb_lt; lia).
+    cbn [app]; repeat (f_equal; try lia). }
+  b128_step H Hok.
+  { subst. split; [|lia]. unfold enc_b128.
+    assert (b <> 128) by auto.
+    replace (_ <? 128) with false by (symmetry; apply N.ltb_ge; lia).
+    replace (_ <? 16384) with false by (symmetry; apply N.ltb_ge; lia).
+    replace (_ <? 2097152) with true by (symmetry; apply N.ltb_lt; lia).
+    cbn [app]; repeat (f_equal; try lia). }
+  b128_step H Hok.
+  { subst. split; [|lia]. unfold enc_b128.
+    assert (b <> 128) by auto.
+    replace (_ <? 128) with false by (symmetry; apply N.ltb_ge; lia).
+    replace (_ <? 16384) with false by (symmetry; apply N.ltb_ge; lia).
+    replace (_ <? 2097152) with false by (symmetry; apply N.ltb_ge; lia).
+    replace (_ <? 268435456) with true by (symmetry; apply N.ltb_lt; lia).
+    cbn [app]; repeat (f_equal; try lia). }
+  b128_step H Hok.
+  { subst. split; [|lia]. unfold enc_b128.
+    assert (b <> 128) by auto.
+    replace (_ <? 128) with false by (symmetry; apply N.ltb_ge; lia).
+    replace (_ <? 16384) with false by (symmetry; apply N.ltb_ge; lia).
+    replace (_ <? 2097152) with false by (symmetry; apply N.ltb_ge; lia).
+    replace (_ <? 268435456) with false by (symmetry; apply N.ltb_ge; lia).
+    cbn [app]; repeat (f_equal; try lia). }
+  exfalso. eapply b128_fuel0. exact H.
+Qed.
+
+(* ------------------------------------------------------------------ *)
+(* identifier octets                                                   *)
+(* ------------------------------------------------------------------ *)
+Lemma parse_tag_enc : forall c comp t r,
+  c < 4 -> t < 2147483648 -> parse_tag (enc_tag c comp t ++ r) = Ok (c, comp, t, r).
+Proof.
+  intros c comp t r Hc Ht. unfold enc_tag.
+  destruct (N.ltb_spec t 31) as [L|L].
+  - cbn [app]. unfold parse_tag.
+    set (b := c * 64 + (if comp then 32 else 0) + t).
+    assert (E1 : b / 64 = c) by (subst b; destruct comp; lia).
+    assert (E2 : ((b / 32) mod 2 =? 1) = comp).
+    { subst b; destruct comp; [apply N.eqb_eq | apply N.eqb_neq]; lia. }
+    assert (E3 : b mod 32 = t) by (subst b; destruct comp; lia).
+    rewrite E1, E2, E3.
+    replace (t =? 31) with false by (symmetry; apply N.eqb_neq; lia). reflexivity.
+  - cbn [app]. unfold parse_tag.
+    set (b := c * 64 + (if comp then 32 else 0) + 31).
+    assert (E1 : b / 64 = c) by (subst b; destruct comp; lia).
+    assert (E2 : ((b / 32) mod 2 =? 1) = comp).
+    { subst b; destruct comp; [apply N.eqb_eq | apply N.eqb_neq]; lia. }
+    assert (E3 : b mod 32 = 31) by (subst b; destruct comp; lia).
+    rewrite E1, E2, E3. cbn [N.eqb Pos.eqb].
+    rewrite parse_base128_enc by exact Ht.
+    replace (t <? 31) with false by (symmetry; apply N.ltb_ge; lia). reflexivity.
+Qed.
+
+Lemma parse_tag_inv : forall bs c comp t r,
+  parse_tag bs = Ok (c, comp, t, r) -> bytes_ok bs = true ->
+  bs = enc_tag c comp t ++ r /\ c < 4 /\ t < 2147483648.
+Proof.
+  intros bs c comp t r H Hok. unfold parse_tag in H.
+  destruct bs as [|b bs']; [discriminate|].
+  apply bytes_ok_cons in Hok as [Hb Hok].
+  destruct (N.eqb_spec (b mod 32) 31) as [E|E].
+  - destruct (parse_base128 bs') as [[t' r']| |] eqn:P; try discriminate.
+    destruct (N.ltb_spec t' 31); [discriminate|].
+    inversion H; subst. clear H.
+    apply parse_base128_inv in P as [P1 P2]; [|exact Hok].
+    split; [|split; [lia|exact P2]].
+    unfold enc_tag. replace (t <? 31) with false by (symmetry; apply N.ltb_ge; lia).
+    cbn [app]. rewrite <- P1. f_equal.
+    destruct (N.eqb_spec ((b / 32) mod 2) 1); lia.
+  - inversion H; subst. clear H.
+    split; [|split; lia].
+    unfold enc_tag. replace (b mod 32 <? 31) with true by (symmetry; apply N.ltb_lt; lia).
+    cbn [app]. f_equal.
+    destruct (N.eqb_spec ((b / 32) mod 2) 1); lia.
+Qed.
+
+(* ------------------------------------------------------------------ *)
+(* length octets                                                       *)
+(* ------------------------------------------------------------------ *)
+Lemma len_bytes_step : forall n acc b r,
+  acc < 8388608 -> acc * 256 + b <> 0 ->
+  len_bytes (S n) acc (b :: r) = len_bytes n (acc * 256 + b) r.
+Proof.
+  intros n acc b r H1 H2. cbn [len_bytes].
+  replace (8388608 <=? acc) with false by (symmetry; apply N.leb_gt; lia).
+  replace (acc * 256 + b =? 0) with false by (symmetry; apply N.eqb_neq; lia).
+  reflexivity.
+Qed.
+
+Lemma parse_len_enc : forall n r, n < 2147483648 -> parse_len (enc_len n ++ r) = Ok (n, r).
+Proof.
+  intros n r Hn. unfold enc_len.
+  destruct (N.ltb_spec n 128).
+  { cbn [app]. unfold parse_len. replace (n <? 128) with true by (symmetry; apply N.ltb_lt; lia). reflexivity. }
+  destruct (N.ltb_spec n 256).
+  { cbn [app]. unfold parse_len. change (129 <? 128) with false. change (129 mod 128 =? 0) with false.
+    change (N.to_nat (129 mod 128)) with 1%nat. cbv iota.
+    rewrite len_bytes_step by lia. cbn [len_bytes].
+    replace (0 * 256 + n <? 128) with false by (symmetry; apply N.ltb_ge; lia). fin. }
+  destruct (N.ltb_spec n 65536).
+  { cbn [app]. unfold parse_len. change (130 <? 128) with false. change (130 mod 128 =? 0) with false.
+    change (N.to_nat (130 mod 128)) with 2%nat. cbv iota.
+    rewrite len_bytes_step by lia. rewrite len_bytes_step by lia. cbn [len_bytes].
+    replace (_ <? 128) with false by (symmetry; apply N.ltb_ge; lia). fin. }
+  destruct (N.ltb_spec n 16777216).
+  { cbn [app]. unfold parse_len. change (131 <? 128) with false. change (131 mod 128 =? 0) with false.
+    change (N.to_nat (131 mod 128)) with 3%nat. cbv iota.
+    rewrite len_bytes_step by lia. rewrite len_bytes_step by lia. rewrite len_bytes_step by lia. cbn [len_bytes].
+    replace (_ <? 128) with false by (symmetry; apply N.ltb_ge; lia). fin. }
+  cbn [app]. unfold parse_len. change (132 <? 128) with false. change (132 mod 128 =? 0) with false.
+  change (N.to_nat (132 mod 128)) with 4%nat. cbv iota.
+  rewrite len_bytes_step by lia. rewrite len_bytes_step by lia. rewrite len_bytes_step by lia.
+  rewrite len_bytes_step by lia. cbn [len_bytes].
+  replace (_ <? 128) with false by (symmetry; apply N.ltb_ge; lia). fin.
+Qed.
+
+Lemma len_bytes_inv : forall n acc l x r,
+  len_bytes (S n) acc l = Ok (x, r) ->
+  exists b l', l = b :: l' /\ acc < 8388608 /\ acc * 256 + b <> 0 /\ len_bytes n (acc * 256 + b) l' = Ok (x, r).
+Proof.
+  intros n acc l x r H. cbn [len_bytes] in H. destruct l as [|b l']; [discriminate|].
+  destruct (N.leb_spec 8388608 acc); [discriminate|].
+  destruct (N.eqb_spec (acc * 256 + b) 0); [discriminate|].
+  exists b, l'. repeat split; assumption.
+Qed.
+
+Local Ltac len_step H Hok :=
+  let b := fresh "b" in let l' := fresh "l" in let Hb := fresh "Hb" in
+  apply len_bytes_inv in H as (b & l' & -> & ? & ? & H);
+  apply bytes_ok_cons in Hok as [Hb Hok].
+
+Lemma parse_len_inv : forall bs n r,
+  parse_len bs = Ok (n, r) -> bytes_ok bs = true ->
+  bs = enc_len n ++ r /\ n < 2147483648.
+Proof.
+  intros bs n r H Hok. unfold parse_len in H.
+  destruct bs as [|lb l0]; [discriminate|].
+  apply bytes_ok_cons in Hok as [Hlb Hok].
+  destruct (N.ltb_spec lb 128) as [L|L].
+  { inversion H; subst. split; [|lia]. unfold enc_len.
+    replace (n <? 128) with true by (symmetry; apply N.ltb_lt; lia). reflexivity. }
+  destruct (N.eqb_spec (lb mod 128) 0) as [E|E]; [discriminate|].
+  destruct (len_bytes (N.to_nat (lb mod 128)) 0 l0) as [[len r']| |] eqn:LB; try discriminate.
+  destruct (N.ltb_spec len 128) as [L2|L2]; [discriminate|].
+  inversion H; subst. clear H.
+  remember (N.to_nat (lb mod 128)) as k eqn:Ek.
+  destruct k as [|[|[|[|[|k]]]]].
+  - exfalso. lia.
+  - len_step LB Hok. cbn [len_bytes] in LB. inversion LB; subst. clear LB.
+    split; [|lia]. unfold enc_len.
+    replace (_ <? 128) with false by (symmetry; apply N.ltb_ge; lia).
+    replace (_ <? 256) with true by (symmetry; apply N.ltb_lt; lia).
+    cbn [app]. repeat (f_equal; try lia).
+  - len_step LB Hok. len_step LB Hok. cbn [len_bytes] in LB. inversion LB; subst. clear LB.
+    split; [|lia]. unfold enc_len.
+    replace (_ <? 128) with false by (symmetry; apply N.ltb_ge; lia).
+    replace (_ <? 256) with false by (symmetry; apply N.ltb_ge; lia).
+    replace (_ <? 65536) with true by (symmetry; apply N.ltb_lt; lia).
+    cbn [app]. repeat (f_equal; try lia).
+  - len_step LB Hok. len_step LB Hok. len_step LB Hok. cbn [len_bytes] in LB. inversion LB; subst. clear LB.
+    split; [|lia]. unfold enc_len.
+    replace (_ <? 128) with false by (symmetry; apply N.ltb_ge; lia).
+    replace (_ <? 256) with false by (symmetry; apply N.ltb_ge; lia).
+    replace (_ <? 65536) with false by (symmetry; apply N.ltb_ge; lia).
+    replace (_ <? 16777216) with true by (symmetry; apply N.ltb_lt; lia).
+    cbn [app]. repeat (f_equal; try lia).
+  - len_step LB Hok. len_step LB Hok. len_step LB Hok. len_step LB Hok.
+    cbn [len_bytes] in LB. inversion LB; subst. clear LB.
+    split; [|lia]. unfold enc_len.
+    replace (_ <? 128) with false by (symmetry; apply N.ltb_ge; lia).
+    replace (_ <? 256) with false by (symmetry; apply N.ltb_ge; lia).
+    replace (_ <? 65536) with false by (symmetry; apply N.ltb_ge; lia).
+    replace (_ <? 16777216) with false by (symmetry; apply N.ltb_ge; lia).
+    cbn [app]. repeat (f_equal; try lia).
+  - exfalso. len_step LB Hok. len_step LB Hok. len_step LB Hok. len_step LB Hok.
+    apply len_bytes_inv in LB as (b' & l' & _ & Hacc & _). lia.
+Qed.
+
+(* ------------------------------------------------------------------ *)
+(* header, element                                                     *)
+(* ------------------------------------------------------------------ *)
+Lemma parse_tl_enc : forall c comp t n r,
+  c < 4 -> t < 2147483648 -> n < 2147483648 ->
+  parse_tl (enc_hdr c comp t n ++ r) = Ok (mkhdr c comp t n, r).
+Proof.
+  intros. unfold parse_tl, enc_hdr. rewrite <- app_assoc.
+  rewrite parse_tag_enc by assumption. rewrite parse_len_enc by assumption. reflexivity.
+Qed.
+
+Lemma parse_tl_inv : forall bs h r,
+  parse_tl bs = Ok (h, r) -> bytes_ok bs = true ->
+  bs = enc_hdr (h_class h) (h_comp h) (h_tag h) (h_len h) ++ r /\
+  h_class h < 4 /\ h_tag h < 2147483648 /\ h_len h < 2147483648.
+Proof.
+  intros bs h r H Hok. unfold parse_tl in H.
+  destruct (parse_tag bs) as [[[[c comp] t] r1]| |] eqn:PT; try discriminate.
+  destruct (parse_len r1) as [[len r2]| |] eqn:PL; try discriminate.
+  inversion H; subst. clear H. cbn [h_class h_comp h_tag h_len].
+  apply parse_tag_inv in PT as (E1 & Hc & Ht); [|exact Hok].
+  subst bs. apply bytes_ok_app in Hok as [_ Hok].
+  apply parse_len_inv in PL as (E2 & Hn); [|exact Hok].
+  subst r1. unfold enc_hdr. rewrite <- app_assoc. repeat split; assumption.
+Qed.
+
+Lemma split_at_N_eq : forall l n,
+  split_at_N l n =
+  if n =? 0 then Some ([], l)
+  else match l with
+       | [] => None
+       | x :: r => match split_at_N r (n - 1) with Some (a, b) => Some (x :: a, b) | None => None end
+       end.
+Proof. destruct l; reflexivity. Qed.
+
+Lemma split_at_N_app : forall a b, split_at_N (a ++ b) (N.of_nat (length a)) = Some (a, b).
+Proof.
+  induction a as [|x a IH]; intros b; rewrite split_at_N_eq.
+  - reflexivity.
+  - replace (N.of_nat (length (x :: a)) =? 0) with false by (symmetry; apply N.eqb_neq; cbn [length]; lia).
+    cbn [app]. replace (N.of_nat (length (x :: a)) - 1) with (N.of_nat (length a)) by (cbn [length]; lia).
+    rewrite IH. reflexivity.
+Qed.
+
+Lemma split_at_N_inv : forall l n a b,
+  split_at_N l n = Some (a, b) -> l = a ++ b /\ N.of_nat (length a) = n.
+Proof.
+  induction l as [|x l IH]; intros n a b H; rewrite split_at_N_eq in H.
+  - destruct (N.eqb_spec n 0); [|discriminate]. inversion H; subst. split; reflexivity.
+  - destruct (N.eqb_spec n 0).
+    + inversion H; subst. split; reflexivity.
+    + destruct (split_at_N l (n - 1)) as [[a' b']|] eqn:E; [|discriminate].
+      inversion H; subst. apply IH in E as [E1 E2]. subst l. split; [reflexivity|].
+      cbn [length]. lia.
+Qed.
+
+Lemma enc_tag_length : forall c comp t, (1 <= length (enc_tag c comp t))%nat.
+Proof. intros. unfold enc_tag. destruct (t <? 31); cbn [length]; lia. Qed.
+Lemma enc_len_length : forall n, (1 <= length (enc_len n))%nat.
+Proof.
+  intros. unfold enc_len.
+  destruct (n <? 128); [cbn [length]; lia|]. destruct (n <? 256); [cbn [length]; lia|].
+  destruct (n <? 65536); [cbn [length]; lia|]. destruct (n <? 16777216); cbn [length]; lia.
+Qed.
+Lemma enc_hdr_length : forall c comp t n, (2 <= length (enc_hdr c comp t n))%nat.
+Proof.
+  intros. unfold enc_hdr. rewrite app_length.
+  pose proof (enc_tag_length c comp t). pose proof (enc_len_length n). lia.
+Qed.
+
+Lemma parse_element_enc : forall c comp t content rest,
+  c < 4 -> t < 2147483648 -> len_ok (length content) = true ->
+  parse_element (enc_hdr c comp t (N.of_nat (length content)) ++ content ++ rest)
+  = Ok (mkhdr c comp t (N.of_nat (length content)), content, rest).
+Proof.
+  intros c comp t content rest Hc Ht Hl. unfold len_ok in Hl. apply N.ltb_lt in Hl.
+  unfold parse_element.
+  destruct (enc_hdr c comp t (N.of_nat (length content)) ++ content ++ rest) eqn:E.
+  { exfalso. pose proof (enc_hdr_length c comp t (N.of_nat (length content))) as L.
+    apply (f_equal (@length N)) in E. rewrite app_length in E. cbn [length] in E. lia. }
+  rewrite <- E. rewrite parse_tl_enc by assumption. cbn [h_len].
+  rewrite split_at_N_app. reflexivity.
+Qed.
+
+Lemma parse_element_inv : forall bs h content rest,
+  parse_element bs = Ok (h, content, rest) -> bytes_ok bs = true ->
+  bs = enc_hdr (h_class h) (h_comp h) (h_tag h) (N.of_nat (length content)) ++ content ++ rest /\
+  h_class h < 4 /\ h_tag h < 2147483648 /\ len_ok (length content) = true /\
+  h_len h = N.of_nat (length content).
+Proof.
+  intros bs h content rest H Hok. unfold parse_element in H.
+  destruct bs as [|b0 bs0]; [discriminate|].
+  destruct (parse_tl (b0 :: bs0)) as [[h' r]| |] eqn:PT; try discriminate.
+  destruct (split_at_N r (h_len h')) as [[a b]|] eqn:SP; [|discriminate].
+  inversion H; subst. clear H.
+  apply parse_tl_inv in PT as (E & Hc & Ht & Hn); [|exact Hok].
+  apply split_at_N_inv in SP as [E2 E3]. subst r.
+  rewrite <- E3 in *. repeat split; try assumption.
+  unfold len_ok. apply N.ltb_lt. exact Hn.
+Qed.
+
+(* ------------------------------------------------------------------ *)
+(* forests: parse after encode                                         *)
+(* ------------------------------------------------------------------ *)
+Fixpoint tsize (t : tlv) : nat :=
+  match t with
+  | Prim _ _ _ => 1
+  | Cons _ _ ch => S (fold_right (fun x a => (tsize x + a)%nat) 0%nat ch)
+  end.
+Definition fsize (ts : list tlv) : nat := fold_right (fun x a => (tsize x + a)%nat) 0%nat ts.
+
+Lemma tsize_pos : forall t, (1 <= tsize t)%nat.
+Proof. destruct t; cbn [tsize]; lia. Qed.
+
+Lemma encode_forest_cons : forall t ts, encode_forest (t :: ts) = encode_tlv t ++ encode_forest ts.
+Proof. reflexivity. Qed.
+
+Lemma encode_tlv_length : forall t, (2 <= length (encode_tlv t))%nat.
+Proof.
+  destruct t as [c tag content|c tag ch]; cbn [encode_tlv]; rewrite app_length;
+    match goal with |- context [enc_hdr ?a ?b ?c ?d] => pose proof (enc_hdr_length a b c d) end; lia.
+Qed.
+
+Lemma encode_forest_nil_iff : forall ts, encode_forest ts = [] <-> ts = [].
+Proof.
+  intros ts. split; [|intros ->; reflexivity].
+  destruct ts as [|t ts]; [reflexivity|]. intros H. exfalso.
+  rewrite encode_forest_cons in H. apply (f_equal (@length N)) in H.
+  rewrite app_length in H. pose proof (encode_tlv_length t). cbn [length] in H. lia.
+Qed.
+
+Lemma parse_forest_S : forall legacy f depth data,
+  parse_forest legacy (S f) depth data =
+  if negb legacy && (max_depth <? depth) then Err "asn1struct: nesting too deep"
+  else
+    match parse_element data with
+    | Ok (h, content, rest) =>
+        let item :=
+          if h_comp h then
+            if negb legacy && is_nil content then Ok (Cons (h_class h) (h_tag h) [])
+            else match parse_forest legacy f (depth + 1) content with
+                 | Ok ch => Ok (Cons (h_class h) (h_tag h) ch)
+                 | Err e => Err e
+                 | Panic e => Panic e
+                 end
+          else Ok (Prim (h_class h) (h_tag h) content) in
+        match item with
+        | Ok it =>
+            match rest with
+            | [] => Ok [it]
+            | _ => match parse_forest legacy f depth rest with
+                   | Ok more => Ok (it :: more)
+                   | Err e => Err e
+                   | Panic e => Panic e
+                   end
+            end
+        | Err e => Err e
+        | Panic e => Panic e
+        end
+    | Err e => Err e
+    | Panic e => Panic e
+    end.
+Proof. reflexivity. Qed.
+
+Lemma forest_height_cons : forall t ts, forest_height (t :: ts) = N.max (height t) (forest_height ts).
+Proof. reflexivity. Qed.
+Lemma height_cons : forall c tag ch, height (Cons c tag ch) = 1 + forest_height ch.
+Proof. reflexivity. Qed.
+Lemma height_pos : forall t, 1 <= height t.
+Proof. destruct t; [cbn [height]; lia | rewrite height_cons; lia]. Qed.
+
+Lemma forest_ok_cons : forall t ts, forest_ok (t :: ts) = true <-> tlv_ok t = true /\ forest_ok ts = true.
+Proof. intros. unfold forest_ok. cbn [forallb]. apply andb_true_iff. Qed.
+
+Lemma tlv_ok_prim : forall c tag content, tlv_ok (Prim c tag content) = true ->
+  c < 4 /\ tag < 2147483648 /\ bytes_ok content = true /\ len_ok (length content) = true.
+Proof.
+  intros c tag content H. cbn [tlv_ok] in H.
+  apply andb_true_iff in H as [H H4]. apply andb_true_iff in H as [H H3]. apply andb_true_iff in H as [H1 H2].
+  apply N.ltb_lt in H1, H2. auto.
+Qed.
+Lemma tlv_ok_cons : forall c tag ch, tlv_ok (Cons c tag ch) = true ->
+  c < 4 /\ tag < 2147483648 /\ forest_ok ch = true /\ len_ok (length (encode_forest ch)) = true.
+Proof.
+  intros c tag ch H. cbn [tlv_ok] in H.
+  apply andb_true_iff in H as [H H4]. apply andb_true_iff in H as [H H3]. apply andb_true_iff in H as [H1 H2].
+  apply N.ltb_lt in H1, H2. auto.
+Qed.
+
+Lemma roundtrip_gen : forall n ts,
+  (fsize ts <= n)%nat -> forest_ok ts = true -> ts <> [] ->
+  forall fuel depth, (length (encode_forest ts) < fuel)%nat -> depth + forest_height ts <= max_depth + 1 ->
+  parse_forest false fuel depth (encode_forest ts) = Ok ts.
+Proof.
+  induction n as [|n IH]; intros ts Hsz Hok Hne fuel depth Hfuel Hdepth.
+  { destruct ts as [|t ts]; [contradiction|]. exfalso. pose proof (tsize_pos t). cbn [fsize fold_right] in Hsz. lia. }
+  destruct ts as [|t ts]; [contradiction|]. clear Hne.
+  destruct fuel as [|f]; [lia|].
+  apply forest_ok_cons in Hok as [Hok1 Hok2].
+  rewrite forest_height_cons in Hdepth. pose proof (height_pos t) as Hpos.
+  rewrite parse_forest_S. cbn [negb andb].
+  replace (max_depth <? depth) with false by (symmetry; apply N.ltb_ge; lia).
+  rewrite encode_forest_cons in *. rewrite app_length in Hfuel.
+  assert (Hrest : forall it, match encode_forest ts with
+                             | [] => Ok [it]
+                             | _ => match parse_forest false f depth (encode_forest ts) with
+                                    | Ok more => Ok (it :: more) | Err e => Err e | Panic e => Panic e end
+                             end = Ok (it :: ts)).
+  { intros it. destruct ts as [|t2 ts2]; [reflexivity|].
+    destruct (encode_forest (t2 :: ts2)) eqn:E.
+    { apply encode_forest_nil_iff in E. discriminate. }
+    rewrite <- E. rewrite (IH (t2 :: ts2)); [reflexivity| | | | |].
+    - cbn [fsize fold_right] in Hsz |- *. pose proof (tsize_pos t). lia.
+    - exact Hok2.
+    - discriminate.
+    - rewrite E. pose proof (encode_tlv_length t). lia.
+    - lia. }
+  destruct t as [c tag content|c tag ch].
+  - apply tlv_ok_prim in Hok1 as (Hc & Ht & _ & Hl).
+    cbn [encode_tlv]. rewrite <- app_assoc. rewrite parse_element_enc by assumption.
+    cbn [h_comp h_class h_tag]. cbv zeta. apply Hrest.
+  - apply tlv_ok_cons in Hok1 as (Hc & Ht & Hch & Hl).
+    cbn [encode_tlv]. fold (encode_forest ch). rewrite <- app_assoc. rewrite parse_element_enc by assumption.
+    cbn [h_comp h_class h_tag]. cbv zeta. cbn [negb andb].
+    destruct ch as [|c1 ch1].
+    + cbn [encode_forest flat_map is_nil]. apply Hrest.
+    + destruct (encode_forest (c1 :: ch1)) eqn:E.
+      { apply encode_forest_nil_iff in E. discriminate. }
+      cbn [is_nil]. rewrite <- E.
+      rewrite (IH (c1 :: ch1)).
+      * apply Hrest.
+      * cbn [fsize fold_right tsize] in Hsz |- *. lia.
+      * exact Hch.
+      * discriminate.
+      * cbn [encode_tlv] in Hfuel. fold (encode_forest (c1 :: ch1)) in Hfuel. rewrite app_length in Hfuel.
+        pose proof (enc_hdr_length c true tag (N.of_nat (length (encode_forest (c1 :: ch1))))). lia.
+      * rewrite height_cons in Hdepth. lia.
+Qed.
+
+Lemma parse_raw_encode : forall ts,
+  forest_ok ts = true -> ts <> [] -> forest_height ts <= max_depth ->
+  parse_raw false (encode_forest ts) = Ok ts.
+Proof.
+  intros ts Hok Hne Hd. unfold parse_raw.
+  apply (roundtrip_gen (fsize ts)); try assumption; lia.
+Qed.
+
+(* ------------------------------------------------------------------ *)
+(* forests: the encoding of what was parsed is the input (DER is canonical) *)
+(* ------------------------------------------------------------------ *)
+Lemma canonical_gen : forall fuel depth bs ts,
+  parse_forest false fuel depth bs = Ok ts -> bytes_ok bs = true ->
+  encode_forest ts = bs /\ ts <> [] /\ forest_ok ts = true /\ depth + forest_height ts <= max_depth + 1.
+Proof.
+  induction fuel as [|f IH]; intros depth bs ts H Hok; [discriminate|].
+  rewrite parse_forest_S in H. cbn [negb andb] in H.
+  destruct (N.ltb_spec max_depth depth) as [|Hd]; [discriminate|].
+  destruct (parse_element bs) as [[[h content] rest]| |] eqn:PE; try discriminate.
+  apply parse_element_inv in PE as (E & Hc & Ht & Hl & _); [|exact Hok].
+  destruct h as [c comp t len]. cbn [h_class h_comp h_tag h_len] in *. cbv zeta in H.
+  subst bs. apply bytes_ok_app in Hok as [_ Hok]. apply bytes_ok_app in Hok as [Hokc Hokr].
+  (* the item *)
+  assert (Hitem : exists it,
+            (if comp
+             then if is_nil content then Ok (Cons c t [])
+                  else match parse_forest false f (depth + 1) content with
+                       | Ok ch => Ok (Cons c t ch) | Err e => Err e | Panic e => Panic e end
+             else Ok (Prim c t content)) = Ok it /\
+            encode_tlv it = enc_hdr c comp t (N.of_nat (length content)) ++ content /\
+            tlv_ok it = true /\ depth + height it <= max_depth + 1).
+  { destruct comp.
+    - destruct content as [|b0 content'].
+      + exists (Cons c t []). cbn [is_nil]. repeat split.
+        * cbn [tlv_ok forallb flat_map length]. apply andb_true_iff. split; [|reflexivity].
+          apply andb_true_iff. split; [|reflexivity]. apply andb_true_iff. split; apply N.ltb_lt; assumption.
+        * rewrite height_cons. cbn [forest_height fold_right]. lia.
+      + cbn [is_nil] in H |- *.
+        destruct (parse_forest false f (depth + 1) (b0 :: content')) as [ch| |] eqn:PF; try discriminate.
+        apply IH in PF as (E1 & _ & Hokch & Hh); [|exact Hokc].
+        exists (Cons c t ch). repeat split.
+        * cbn [encode_tlv]. fold (encode_forest ch). rewrite E1. reflexivity.
+        * cbn [tlv_ok]. fold (encode_forest ch). rewrite E1. unfold forest_ok in Hokch. rewrite Hokch, Hl.
+          replace (c <? 4) with true by (symmetry; apply N.ltb_lt; assumption).
+          replace (t <? 2147483648) with true by (symmetry; apply N.ltb_lt; assumption). reflexivity.
+        * rewrite height_cons. lia.
+    - exists (Prim c t content). repeat split.
+      + cbn [tlv_ok]. rewrite Hokc, Hl.
+        replace (c <? 4) with true by (symmetry; apply N.ltb_lt; assumption).
+        replace (t <? 2147483648) with true by (symmetry; apply N.ltb_lt; assumption). reflexivity.
+      + cbn [height]. lia. }
+  destruct Hitem as (it & Eit & Eenc & Hokit & Hhit). rewrite Eit in H.
+  destruct rest as [|r0 rest'].
+  - inversion H; subst. repeat split.
+    + rewrite encode_forest_cons. cbn [encode_forest flat_map]. rewrite Eenc. rewrite <- app_assoc. reflexivity.
+    + discriminate.
+    + apply forest_ok_cons. split; [exact Hokit|reflexivity].
+    + rewrite forest_height_cons. cbn [forest_height fold_right]. lia.
+  - destruct (parse_forest false f depth (r0 :: rest')) as [more| |] eqn:PF; try discriminate.
+    inversion H; subst. apply IH in PF as (E1 & _ & Hokm & Hhm); [|exact Hokr].
+    repeat split.
+    + rewrite encode_forest_cons. rewrite Eenc, E1. rewrite <- app_assoc. reflexivity.
+    + discriminate.
+    + apply forest_ok_cons. split; assumption.
+    + rewrite forest_height_cons. lia.
+Qed.
+
+Lemma parse_raw_canonical : forall bs ts,
+  parse_raw false bs = Ok ts -> bytes_ok bs = true ->
+  encode_forest ts = bs /\ ts <> [] /\ forest_ok ts = true /\ forest_height ts <= max_depth.
+Proof.
+  intros bs ts H Hok. unfold parse_raw in H. apply canonical_gen in H as (E & Hne & Hf & Hh); [|exact Hok].
+  repeat split; try assumption. lia.
+Qed.
+
+(* ------------------------------------------------------------------ *)
+(* acceptance: is_asn1 holds exactly for one complete DER element      *)
+(* ------------------------------------------------------------------ *)
+Definition one_element (bs : bytes) : Prop :=
+  exists c comp t content,
+    c < 4 /\ t < 2147483648 /\ len_ok (length content) = true /\
+    bs = enc_hdr c comp t (N.of_nat (length content)) ++ content.
+
+Lemma is_asn1_complete : forall bs, one_element bs -> is_asn1 bs = true.
+Proof.
+  intros bs (c & comp & t & content & Hc & Ht & Hl & ->). unfold is_asn1.
+  rewrite <- (app_nil_r content) at 2. rewrite parse_element_enc by assumption. reflexivity.
+Qed.
+
+Lemma is_asn1_sound : forall bs, bytes_ok bs = true -> is_asn1 bs = true -> one_element bs.
+Proof.
+  intros bs Hok H. unfold is_asn1 in H.
+  destruct (parse_element bs) as [[[h content] rest]| |] eqn:PE; try discriminate.
+  destruct rest; [|discriminate].
+  apply parse_element_inv in PE as (E & Hc & Ht & Hl & _); [|exact Hok].
+  exists (h_class h), (h_comp h), (h_tag h), content. rewrite app_nil_r in E. auto.
+Qed.
+
+(* the neighbours of DER are rejected: they are not of the canonical form *)
+Lemma is_asn1_no_trailing : forall bs extra,
+  bytes_ok (bs ++ extra) = true -> is_asn1 bs = true -> extra <> [] -> is_asn1 (bs ++ extra) = false.
+Proof.
+  intros bs extra Hok H Hne.
+  apply bytes_ok_app in Hok as [Hok1 Hok2].
+  apply is_asn1_sound in H as (c & comp & t & content & Hc & Ht & Hl & ->); [|exact Hok1].
+  unfold is_asn1. rewrite <- app_assoc. rewrite parse_element_enc by assumption.
+  destruct extra; [contradiction|reflexivity].
+Qed.
+
+(* ------------------------------------------------------------------ *)
+(* fuel: never exhausted, and irrelevant once it exceeds the input     *)
+(* ------------------------------------------------------------------ *)
+Lemma b128_shorter : forall f first acc l t r, b128 f first acc l = Ok (t, r) -> (length r < length l)%nat.
+Proof.
+  induction f as [|f IH]; intros first acc l t r H.
+  { destruct l; discriminate. }
+  destruct l as [|b l']; [discriminate|]. cbn [b128] in H.
+  destruct (first && (b =? 128)); [discriminate|].
+  destruct (b <? 128).
+  - destruct (2147483647 <? acc * 128 + b mod 128); [discriminate|]. inversion H; subst. cbn [length]. lia.
+  - apply IH in H. cbn [length]. lia.
+Qed.
+
+Lemma parse_tag_shorter : forall bs c comp t r, parse_tag bs = Ok (c, comp, t, r) -> (length r < length bs)%nat.
+Proof.
+  intros bs c comp t r H. unfold parse_tag in H. destruct bs as [|b bs']; [discriminate|].
+  destruct (b mod 32 =? 31).
+  - destruct (parse_base128 bs') as [[t' r']| |] eqn:P; try discriminate.
+    destruct (t' <? 31); [discriminate|]. inversion H; subst.
+    apply b128_shorter in P. cbn [length]. lia.
+  - inversion H; subst. cbn [length]. lia.
+Qed.
+
+Lemma len_bytes_shorter : forall n acc l x r, len_bytes n acc l = Ok (x, r) -> (length r <= length l)%nat.
+Proof.
+  induction n as [|n IH]; intros acc l x r H.
+  { cbn [len_bytes] in H. inversion H; subst. lia. }
+  apply len_bytes_inv in H as (b & l' & -> & _ & _ & H). apply IH in H. cbn [length]. lia.
+Qed.
+
+Lemma parse_len_shorter : forall bs n r, parse_len bs = Ok (n, r) -> (length r < length bs)%nat.
+Proof.
+  intros bs n r H. unfold parse_len in H. destruct bs as [|lb l0]; [discriminate|].
+  destruct (lb <? 128).
+  { inversion H; subst. cbn [length]. lia. }
+  destruct (lb mod 128 =? 0); [discriminate|].
+  destruct (len_bytes (N.to_nat (lb mod 128)) 0 l0) as [[len r']| |] eqn:LB; try discriminate.
+  destruct (len <? 128); [discriminate|]. inversion H; subst.
+  apply len_bytes_shorter in LB. cbn [length]. lia.
+Qed.
+
+Lemma split_at_N_lengths : forall l n a b, split_at_N l n = Some (a, b) -> length l = (length a + length b)%nat.
+Proof. intros l n a b H. apply split_at_N_inv in H as [-> _]. apply app_length. Qed.
+
+Lemma parse_element_shorter : forall bs h content rest,
+  parse_element bs = Ok (h, content, rest) -> (length content + length rest + 2 <= length bs)%nat.
+Proof.
+  intros bs h content rest H. unfold parse_element in H.
+  destruct bs as [|b0 bs0]; [discriminate|].
+  destruct (parse_tl (b0 :: bs0)) as [[h' r]| |] eqn:PT; try discriminate.
+  destruct (split_at_N r (h_len h')) as [[a b]|] eqn:SP; [|discriminate].
+  inversion H; subst. clear H. apply split_at_N_lengths in SP.
+  unfold parse_tl in PT.
+  destruct (parse_tag (b0 :: bs0)) as [[[[c comp] t] r1]| |] eqn:P1; try discriminate.
+  destruct (parse_len r1) as [[len r2]| |] eqn:P2; try discriminate.
+  inversion PT; subst. apply parse_tag_shorter in P1. apply parse_len_shorter in P2. lia.
+Qed.
+
+Lemma fuel_irrelevant : forall legacy f1 f2 depth bs,
+  (length bs < f1)%nat -> (length bs < f2)%nat ->
+  parse_forest legacy f1 depth bs = parse_forest legacy f2 depth bs.
+Proof.
+  induction f1 as [|f1 IH]; intros f2 depth bs H1 H2; [lia|].
+  destruct f2 as [|f2]; [lia|].
+  rewrite !parse_forest_S.
+  destruct (negb legacy && (max_depth <? depth)); [reflexivity|].
+  destruct (parse_element bs) as [[[h content] rest]| |] eqn:PE; try reflexivity.
+  apply parse_element_shorter in PE. cbv zeta.
+  rewrite (IH f2 (depth + 1) content) by lia.
+  rewrite (IH f2 depth rest) by lia. reflexivity.
+Qed.
+
+(* no error message of the parsers is the fuel marker *)
+Definition not_fuel {A} (r : result A) : Prop := r <> Err "fuel".
+
+Lemma b128_not_fuel : forall f first acc l, not_fuel (b128 f first acc l).
+Proof.
+  unfold not_fuel. induction f as [|f IH]; intros first acc l.
+  { destruct l; discriminate. }
+  destruct l as [|b l']; [discriminate|]. cbn [b128].
+  destruct (first && (b =? 128)); [discriminate|].
+  destruct (b <? 128); [|apply IH].
+  destruct (2147483647 <? acc * 128 + b mod 128); discriminate.
+Qed.
+
+Lemma len_bytes_not_fuel : forall n acc l, not_fuel (len_bytes n acc l).
+Proof.
+  unfold not_fuel. induction n as [|n IH]; intros acc l; cbn [len_bytes]; [discriminate|].
+  destruct l as [|b l']; [discriminate|].
+  destruct (8388608 <=? acc); [discriminate|].
+  destruct (acc * 256 + b =? 0); [discriminate|]. apply IH.
+Qed.
+
+Lemma parse_element_not_fuel : forall bs, not_fuel (parse_element bs).
+Proof.
+  unfold not_fuel. intros bs. unfold parse_element. destruct bs as [|b0 bs0]; [discriminate|].
+  unfold parse_tl, parse_tag.
+  destruct (b0 mod 32 =? 31).
+  - pose proof (b128_not_fuel 5 true 0 bs0) as NF. unfold parse_base128, not_fuel in *.
+    destruct (b128 5 true 0 bs0) as [[t r]|e|e]; try discriminate.
+    + destruct (t <? 31); [discriminate|].
+      unfold parse_len. destruct r as [|lb r0]; [discriminate|].
+      destruct (lb <? 128).
+      { destruct (split_at_N r0 _) as [[? ?]|]; discriminate. }
+      destruct (lb mod 128 =? 0); [discriminate|].
+      pose proof (len_bytes_not_fuel (N.to_nat (lb mod 128)) 0 r0) as NF2. unfold not_fuel in NF2.
+      destruct (len_bytes (N.to_nat (lb mod 128)) 0 r0) as [[len r']|e|e]; try discriminate.
+      * destruct (len <? 128); [discriminate|]. destruct (split_at_N r' _) as [[? ?]|]; discriminate.
+      * intros E. apply NF2. inversion E. reflexivity.
+    + intros E. apply NF. inversion E. reflexivity.
+  - unfold parse_len. destruct bs0 as [|lb r0]; [discriminate|].
+    destruct (lb <? 128).
+    { destruct (split_at_N r0 _) as [[? ?]|]; discriminate. }
+    destruct (lb mod 128 =? 0); [discriminate|].
+    pose proof (len_bytes_not_fuel (N.to_nat (lb mod 128)) 0 r0) as NF2. unfold not_fuel in NF2.
+    destruct (len_bytes (N.to_nat (lb mod 128)) 0 r0) as [[len r']|e|e]; try discriminate.
+    * destruct (len <? 128); [discriminate|]. destruct (split_at_N r' _) as [[? ?]|]; discriminate.
+    * intros E. apply NF2. inversion E. reflexivity.
+Qed.
+
+Lemma fuel_adequate : forall legacy fuel depth bs,
+  (length bs < fuel)%nat -> not_fuel (parse_forest legacy fuel depth bs).
+Proof.
+  unfold not_fuel. induction fuel as [|f IH]; intros depth bs H; [lia|].
+  rewrite parse_forest_S.
+  destruct (negb legacy && (max_depth <? depth)); [discriminate|].
+  pose proof (parse_element_not_fuel bs) as NF. unfold not_fuel in NF.
+  destruct (parse_element bs) as [[[h content] rest]|e|e] eqn:PE; try discriminate.
+  2:{ intros E. apply NF. inversion E. reflexivity. }
+  apply parse_element_shorter in PE. cbv zeta.
+  assert (IHc := IH (depth + 1) content). assert (IHr := IH depth rest).
+  destruct (h_comp h).
+  - destruct (negb legacy && is_nil content).
+    + destruct rest; [discriminate|].
+      destruct (parse_forest legacy f depth (n :: rest)) as [?|e|e]; try discriminate.
+      intros E. apply IHr; [cbn [length] in *; lia|]. inversion E. reflexivity.
+    + destruct (parse_forest legacy f (depth + 1) content) as [?|e|e]; try discriminate.
+      * destruct rest; [discriminate|].
+        destruct (parse_forest legacy f depth (n :: rest)) as [?|e|e]; try discriminate.
+        intros E. apply IHr; [cbn [length] in *; lia|]. inversion E. reflexivity.
+      * intros E. apply IHc; [lia|]. inversion E. reflexivity.
+  - destruct rest; [discriminate|].
+    destruct (parse_forest legacy f depth (n :: rest)) as [?|e|e]; try discriminate.
+    intros E. apply IHr; [cbn [length] in *; lia|]. inversion E. reflexivity.
+Qed.
+
+Lemma parse_raw_fuel_adequate : forall legacy bs, not_fuel (parse_raw legacy bs).
+Proof. intros. unfold parse_raw. apply fuel_adequate. lia. Qed.
+
+(* ------------------------------------------------------------------ *)
+(* the nesting limit: deeper structures are an error                   *)
+(* ------------------------------------------------------------------ *)
+Lemma too_deep_gen : forall n ts,
+  (fsize ts <= n)%nat -> forest_ok ts = true -> ts <> [] ->
+  forall fuel depth, (length (encode_forest ts) < fuel)%nat -> max_depth + 1 < depth + forest_height ts ->
+  exists e, parse_forest false fuel depth (encode_forest ts) = Err e.
+Proof.
+  induction n as [|n IH]; intros ts Hsz Hok Hne fuel depth Hfuel Hdepth.
+  { destruct ts as [|t ts]; [contradiction|]. exfalso. pose proof (tsize_pos t). cbn [fsize fold_right] in Hsz. lia. }
+  destruct ts as [|t ts]; [contradiction|]. clear Hne.
+  destruct fuel as [|f]; [lia|].
+  apply forest_ok_cons in Hok as [Hok1 Hok2].
+  rewrite parse_forest_S. cbn [negb andb].
+  destruct (N.ltb_spec max_depth depth) as [|Hd]; [eexists; reflexivity|].
+  rewrite forest_height_cons in Hdepth.
+  rewrite encode_forest_cons in *. rewrite app_length in Hfuel.
+  (* what happens after an item that parsed: the rest must be the part that is too deep *)
+  assert (Hrest : forall it, depth + height t <= max_depth + 1 ->
+            exists e, match encode_forest ts with
+                      | [] => Ok [it]
+                      | _ => match parse_forest false f depth (encode_forest ts) with
+                             | Ok more => Ok (it :: more) | Err e => Err e | Panic e => Panic e end
+                      end = Err e).
+  { intros it Hh. destruct ts as [|t2 ts2].
+    { exfalso. cbn [forest_height fold_right] in Hdepth. lia. }
+    destruct (encode_forest (t2 :: ts2)) eqn:E.
+    { apply encode_forest_nil_iff in E. discriminate. }
+    rewrite <- E.
+    destruct (IH (t2 :: ts2)) with (fuel := f) (depth := depth) as [e He].
+    - cbn [fsize fold_right] in Hsz |- *. pose proof (tsize_pos t). lia.
+    - exact Hok2.
+    - discriminate.
+    - rewrite E. pose proof (encode_tlv_length t). lia.
+    - lia.
+    - exists e. rewrite He. reflexivity. }
+  destruct t as [c tag content|c tag ch].
+  - apply tlv_ok_prim in Hok1 as (Hc & Ht & _ & Hl).
+    cbn [encode_tlv]. rewrite <- app_assoc. rewrite parse_element_enc by assumption.
+    cbn [h_comp h_class h_tag]. cbv zeta. apply Hrest. cbn [height]. lia.
+  - apply tlv_ok_cons in Hok1 as (Hc & Ht & Hch & Hl).
+    cbn [encode_tlv]. fold (encode_forest ch). rewrite <- app_assoc. rewrite parse_element_enc by assumption.
+    cbn [h_comp h_class h_tag]. cbv zeta. cbn [negb andb].
+    destruct ch as [|c1 ch1].
+    + cbn [encode_forest flat_map is_nil]. apply Hrest. rewrite height_cons. cbn [forest_height fold_right]. lia.
+    + destruct (encode_forest (c1 :: ch1)) eqn:E.
+      { apply encode_forest_nil_iff in E. discriminate. }
+      cbn [is_nil]. rewrite <- E.
+      assert (Hf : (length (encode_forest (c1 :: ch1)) < f)%nat).
+      { cbn [encode_tlv] in Hfuel. fold (encode_forest (c1 :: ch1)) in Hfuel. rewrite app_length in Hfuel.
+        pose proof (enc_hdr_length c true tag (N.of_nat (length (encode_forest (c1 :: ch1))))). lia. }
+      assert (Hs : (fsize (c1 :: ch1) <= n)%nat) by (cbn [fsize fold_right tsize] in Hsz |- *; lia).
+      destruct (N.le_gt_cases (depth + height (Cons c tag (c1 :: ch1))) (max_depth + 1)) as [Hle|Hgt].
+      * rewrite (roundtrip_gen n (c1 :: ch1)); try assumption; [|discriminate|rewrite height_cons in Hle; lia].
+        apply Hrest. exact Hle.
+      * destruct (IH (c1 :: ch1)) with (fuel := f) (depth := depth + 1) as [e He]; try assumption; [discriminate| |].
+        { rewrite height_cons in Hgt. lia. }
+        exists e. rewrite He. reflexivity.
+Qed.
+
+Lemma parse_raw_too_deep : forall ts,
+  forest_ok ts = true -> ts <> [] -> max_depth < forest_height ts ->
+  exists e, parse_raw false (encode_forest ts) = Err e.
+Proof.
+  intros ts Hok Hne Hd. unfold parse_raw.
+  apply (too_deep_gen (fsize ts)); try assumption; lia.
+Qed.
+
+(* the F34 witness family *)
+Lemma nested_height : forall n, height (nested n) = N.of_nat n + 1.
+Proof.
+  induction n as [|n IH]; [reflexivity|].
+  cbn [nested]. rewrite height_cons. cbn [forest_height fold_right]. rewrite IH. lia.
+Qed.
+
+Lemma nested_too_deep : forall n,
+  tlv_ok (nested n) = true -> max_depth < N.of_nat n + 1 ->
+  exists e, parse_raw false (encode_tlv (nested n)) = Err e.
+Proof.
+  intros n Hok Hd.
+  replace (encode_tlv (nested n)) with (encode_forest [nested n]) by (cbn [encode_forest flat_map]; apply app_nil_r).
+  apply parse_raw_too_deep.
+  - unfold forest_ok. cbn [forallb]. rewrite Hok. reflexivity.
+  - discriminate.
+  - cbn [forest_height fold_right]. rewrite nested_height. lia.
+Qed.
+
+(* ------------------------------------------------------------------ *)
+(* the dump                                                            *)
+(* ------------------------------------------------------------------ *)
+Section tlv_ind2.
+  Variable P : tlv -> Prop.
+  Hypothesis Hprim : forall c tag content, P (Prim c tag content).
+  Hypothesis Hcons : forall c tag ch, Forall P ch -> P (Cons c tag ch).
+  Fixpoint tlv_ind2 (t : tlv) : P t :=
+    match t with
+    | Prim c tag content => Hprim c tag content
+    | Cons c tag ch =>
+        Hcons c tag ch ((fix go (l : list tlv) : Forall P l :=
+                           match l with
+                           | [] => Forall_nil P
+                           | x :: r => Forall_cons x (tlv_ind2 x) (go r)
+                           end) ch)
+    end.
+End tlv_ind2.
+
+Inductive shape : Type := Node (children : list shape).
+Fixpoint shape_of_info (i : info) : shape :=
+  match i with Info _ _ c => Node (map shape_of_info c) end.
+Fixpoint shape_of_tlv (t : tlv) : shape :=
+  match t with
+  | Prim _ _ _ => Node []
+  | Cons _ _ ch => Node (map shape_of_tlv ch)
+  end.
+
+Lemma dump_shape : forall legacy t, shape_of_info (dump legacy t) = shape_of_tlv t.
+Proof.
+  intros legacy. induction t as [c tag content|c tag ch IH] using tlv_ind2; [reflexivity|].
+  cbn [dump shape_of_info shape_of_tlv]. f_equal. rewrite map_map.
+  induction IH as [|x l Hx _ IHl]; [reflexivity|]. cbn [map]. rewrite Hx, IHl. reflexivity.
+Qed.
+
+Lemma dump_forest_shape : forall legacy ts, map shape_of_info (map (dump legacy) ts) = map shape_of_tlv ts.
+Proof. intros. rewrite map_map. apply map_ext. intros. apply dump_shape. Qed.
+
+(* no node of the dump carries attributes *)
+Fixpoint no_attrs (i : info) : bool :=
+  match i with Info _ a c => is_nil a && forallb no_attrs c end.
+Lemma dump_no_attrs : forall legacy t, no_attrs (dump legacy t) = true.
+Proof.
+  intros legacy. induction t as [c tag content|c tag ch IH] using tlv_ind2; [reflexivity|].
+  cbn [dump no_attrs is_nil andb]. rewrite forallb_forall. intros i Hi.
+  apply in_map_iff in Hi as (t & <- & Ht). rewrite Forall_forall in IH. apply IH. exact Ht.
+Qed.
+
+(* the description of an input that parses, and of one that does not *)
+Lemma describe_ok : forall legacy data ts, parse_raw legacy data = Ok ts ->
+  describe legacy data = Info (bs "ASN.1 data") [] (map (dump legacy) ts).
+Proof. intros legacy bs0 ts H. unfold describe. rewrite H. reflexivity. Qed.
+
+Lemma describe_err : forall legacy data, (forall ts, parse_raw legacy data <> Ok ts) -> describe legacy data = unknown_asn1.
+Proof.
+  intros legacy bs0 H. unfold describe. destruct (parse_raw legacy bs0) as [ts| |]; [|reflexivity|reflexivity].
+  exfalso. apply (H ts). reflexivity.
+Qed.
+
+Lemma asn1_file_unrecognised : forall legacy der data,
+  i_desc der = bs "unknown ASN.1 data" -> asn1_file legacy der data = describe legacy data.
+Proof.
+  intros legacy der bs0 H. unfold asn1_file. rewrite H.
+  replace (bytes_eqb (bs "unknown ASN.1 data") (bs "unknown ASN.1 data")) with true by (vm_compute; reflexivity).
+  reflexivity.
+Qed.
+
+(* labels *)
+Lemma type_string_other_class : forall tbl c tag, c <> 0 -> type_string_in tbl c tag = dec_of_N tag.
+Proof. intros tbl c tag H. unfold type_string_in. apply N.eqb_neq in H. rewrite H. reflexivity. Qed.
+Lemma type_string_universal_named : forall tbl tag name,
+  lookup_name tag tbl = Some name -> type_string_in tbl 0 tag = name.
+Proof. intros tbl tag name H. unfold type_string_in. cbn [N.eqb]. rewrite H. reflexivity. Qed.
+Lemma type_string_universal_unnamed : forall tbl tag,
+  lookup_name tag tbl = None -> type_string_in tbl 0 tag = dec_of_N tag.
+Proof. intros tbl tag H. unfold type_string_in. cbn [N.eqb]. rewrite H. reflexivity. Qed.
+
+(* T1 instance: the regenerated table names exactly the universal types of X.680 8.6 *)
+Definition x680_universal_names : list (N * bytes) := [
+  (1, bs "BOOLEAN"); (2, bs "INTEGER"); (3, bs "BIT STRING"); (4, bs "OCTET STRING"); (5, bs "NULL");
+  (6, bs "OBJECT IDENTIFIER"); (7, bs "ObjectDescriptor"); (8, bs "EXTERNAL"); (9, bs "REAL");
+  (10, bs "ENUMERATED"); (11, bs "EMBEDDED PDV"); (12, bs "UTF8String"); (13, bs "RELATIVE-OID");
+  (14, bs "TIME"); (16, bs "SEQUENCE"); (17, bs "SET"); (18, bs "NumericString"); (19, bs "PrintableString");
+  (20, bs "TeletexString, T61String"); (21, bs "VideotexString"); (22, bs "IA5String"); (23, bs "UTCTime");
+  (24, bs "GeneralizedTime"); (25, bs "GraphicString"); (26, bs "VisibleString"); (27, bs "GeneralString");
+  (28, bs "UniversalString"); (29, bs "CHARACTER STRING"); (30, bs "BMPString"); (31, bs "DATE");
+  (32, bs "TIME-OF-DAY"); (33, bs "DATE-TIME"); (34, bs "DURATION"); (35, bs "OID-IRI"); (36, bs "RELATIVE-OID-IRI")].
+
+Definition opt_bytes_eqb (a b : option bytes) : bool :=
+  match a, b with
+  | Some x, Some y => bytes_eqb x y
+  | None, None => true
+  | _, _ => false
+  end.
+
+(* the table agrees with the reference list on every tag either of them mentions, no name contains
+   a colon (so "label: value" splits at the first colon) and no name is a numeral *)
+Definition names_ok (tbl : list (N * bytes)) : bool :=
+  forallb (fun k => opt_bytes_eqb (lookup_name k tbl) (lookup_name k x680_universal_names))
+          (map fst tbl ++ map fst x680_universal_names) &&
+  forallb (fun kv => negb (existsb (N.eqb 58) (snd kv)) &&
+                     existsb (fun ch => negb ((48 <=? ch) && (ch <=? 57))) (snd kv)) tbl.
+
+Lemma names_ok_now : names_ok asn1_tag_names = true.
+Proof. vm_compute. reflexivity. Qed.
+
+Lemma bytes_eqb_eq : forall a b, bytes_eqb a b = true -> a = b.
+Proof.
+  induction a as [|x a IH]; destruct b as [|y b]; cbn [bytes_eqb]; try discriminate; [reflexivity|].
+  intros H. apply andb_true_iff in H as [H1 H2]. apply N.eqb_eq in H1. subst. f_equal. apply IH. exact H2.
+Qed.
+
+Lemma lookup_in_table : forall tbl k v, names_ok tbl = true ->
+  lookup_name k x680_universal_names = Some v -> lookup_name k tbl = Some v.
+Proof.
+  intros tbl k v H Hk. unfold names_ok in H. apply andb_true_iff in H as [H _].
+  rewrite forallb_forall in H.
+  assert (In k (map fst tbl ++ map fst x680_universal_names)).
+  { apply in_or_app. right. clear H. revert Hk. generalize x680_universal_names.
+    induction l as [|[k' v'] l IH]; cbn [lookup_name map fst]; [discriminate|].
+    destruct (N.eqb_spec k' k); [left; assumption|]. intros. right. apply IH. assumption. }
+  specialize (H k H0). rewrite Hk in H. destruct (lookup_name k tbl); [|discriminate].
+  cbn [opt_bytes_eqb] in H. apply bytes_eqb_eq in H. subst. reflexivity.
+Qed.
+
+Lemma lookup_not_in_table : forall tbl k, names_ok tbl = true ->
+  lookup_name k x680_universal_names = None -> lookup_name k tbl = None.
+Proof.
+  intros tbl k H Hk. unfold names_ok in H. apply andb_true_iff in H as [H _].
+  rewrite forallb_forall in H.
+  destruct (lookup_name k tbl) eqn:E; [|reflexivity]. exfalso.
+  assert (In k (map fst tbl ++ map fst x680_universal_names)).
+  { apply in_or_app. left. clear H. revert E. generalize tbl as l.
+    induction l as [|[k' v'] l IH]; cbn [lookup_name map fst]; [discriminate|].
+    destruct (N.eqb_spec k' k); [left; assumption|]. intros. right. apply IH. assumption. }
+  specialize (H k H0). rewrite Hk, E in H. discriminate.
+Qed.
